@@ -101,6 +101,7 @@ pub fn scenarios(thorough: bool) -> Vec<Scenario> {
     v.push(pair_conflict_scenario("pair-conflict-move", 6, 5, if thorough { &[1, 3, 8] } else { &[1, 8] }, if thorough { 5 } else { 4 }, &[Op::Snapshot(0), Op::ObjPut(1, 1), Op::ObjPut(0, 1)]));
     v.push(pair_scenario("pair-rootkinds", &[8, 9, 12, 14], if thorough { 5 } else { 4 }, &[Op::Resolve(0, 0, 0), Op::Resolve(1, 0, 1)]));
     v.push(trio_scenario("trio", if thorough { 7 } else { 6 }));
+    v.extend(cross_scenarios(thorough));
     v
 }
 
